@@ -3,6 +3,7 @@ package main
 import (
 	"fmt"
 	"go/ast"
+	"go/token"
 	"go/types"
 	"sort"
 	"strings"
@@ -156,6 +157,46 @@ func (p *Prog) lowerTop(fi *FuncInfo, ct *Contract) (fv *FuncIVL, err error) {
 				l.assign(n, f.Vars[n], p.zeroOf(resTypes[k]))
 				fr.results = append(fr.results, n)
 				k++
+			}
+		}
+	}
+	// locals declared in the body hold their zero value until their declaration executes (specs checked at
+	// early returns may mention them)
+	if ct != nil && (ct.PerReturn || len(ct.Ensures) > 0) {
+		type defn struct {
+			pos token.Pos
+			v   *types.Var
+		}
+		var defs []defn
+		for id, obj := range info.Defs {
+			v, ok := obj.(*types.Var)
+			if !ok || v.IsField() || id.Pos() < fi.Body.Pos() || id.Pos() > fi.Body.End() || id.Name == "_" {
+				continue
+			}
+			if l.isBoxed(v) {
+				continue
+			}
+			// variables of nested function literals belong to those literals
+			inLit := false
+			ast.Inspect(fi.Body, func(n ast.Node) bool {
+				if fl, ok := n.(*ast.FuncLit); ok && fl != fi.Lit {
+					if id.Pos() >= fl.Pos() && id.Pos() <= fl.End() {
+						inLit = true
+					}
+					return false
+				}
+				return true
+			})
+			if inLit {
+				continue
+			}
+			defs = append(defs, defn{id.Pos(), v})
+		}
+		sort.Slice(defs, func(i, j int) bool { return defs[i].pos < defs[j].pos })
+		for _, d := range defs {
+			name := l.localVar(d.v)
+			if srt := f.Vars[name]; srt != "" {
+				l.assign(name, srt, p.zeroOf(d.v.Type()))
 			}
 		}
 	}
@@ -382,6 +423,16 @@ func (l *Lowerer) frameObligations(ct *Contract, chain []*Contract) {
 		return
 	}
 	mods, has := l.p.allModifies(ct)
+	decoderOnly := false
+	if (ct.Auto || ct.DecoderFrame) && l.cur != nil {
+		// frame of the sweep contracts: decoder state changes only at the decoders passed in
+		decoderOnly = true
+		has = true
+		mods = nil
+		for _, n := range l.decoderArgs(l.fr.fi) {
+			mods = append(mods, n+".*")
+		}
+	}
 	if !has || l.cur == nil {
 		return
 	}
@@ -454,6 +505,9 @@ func (l *Lowerer) frameObligations(ct *Contract, chain []*Contract) {
 	sort.Strings(hvs)
 	for _, hv := range hvs {
 		if hv == "$alloc" || strings.HasPrefix(hv, "F.$lock.") {
+			continue
+		}
+		if decoderOnly && !isDecoderState(hv) {
 			continue
 		}
 		isAssigned := assigned[hv] || assigned["*"]
